@@ -9,6 +9,7 @@
 from dataclasses import dataclass
 from typing import (
     Any,
+    Callable,
     Dict,
     List,
     Literal,
@@ -131,6 +132,21 @@ class CParser:
         # a proper location once it reaches that token.
         if len(self._scope_stack) > 1:
             self._scope_stack.pop()
+
+    def _drop_scope(self, scope: Dict[str, bool]) -> None:
+        """Ends a scope the parser opened itself (not the scope of a '{').
+        The lookahead past the construct may already have read a '{', whose
+        scope then lies on top of it, or the '}' of the enclosing block, which
+        then popped it in place of that block's scope.
+        """
+        for i in range(len(self._scope_stack) - 1, 0, -1):
+            if self._scope_stack[i] is scope:
+                del self._scope_stack[i]
+                break
+        else:
+            self._pop_scope()
+        # An identifier read ahead was classified while the scope was open.
+        self._tokens.reclassify_lookahead(self._is_type_in_scope)
 
     def _add_typedef_name(self, name: str, coord: Optional[Coord]) -> None:
         """Add a new typedef name (ie a TYPEID) to the current scope"""
@@ -1769,6 +1785,11 @@ class CParser:
             case "FOR":
                 self._expect("LPAREN")
                 if self._starts_declaration() or self._peek_type() == "_STATIC_ASSERT":
+                    # The loop is a block of its own (C99 6.8.5p5): what its
+                    # first clause declares is visible up to the end of the
+                    # body only.
+                    self._push_scope()
+                    for_scope = self._scope_stack[-1]
                     if self._peek_type() == "_STATIC_ASSERT":
                         # In C11 a static assertion is a declaration too.
                         decls = self._parse_static_assert()
@@ -1781,6 +1802,7 @@ class CParser:
                     next_expr = self._parse_expression_opt()
                     self._expect("RPAREN")
                     stmt = self._parse_pragmacomp_or_statement()
+                    self._drop_scope(for_scope)
                     return c_ast.For(init, cond, next_expr, stmt, self._tok_coord(tok))
 
                 init = self._parse_expression_opt()
@@ -2470,6 +2492,14 @@ class _TokenStream:
 
     def reset(self, mark: int) -> None:
         self._index = mark
+
+    def reclassify_lookahead(self, is_type: Callable[[str], bool]) -> None:
+        """Decides again whether the identifiers that have been read but not
+        consumed yet are typedef names (the scopes have changed since).
+        """
+        for tok in self._buffer[self._index :]:
+            if tok is not None and tok.type in ("ID", "TYPEID"):
+                tok.type = "TYPEID" if is_type(tok.value) else "ID"
 
     def _fill(self, n: int) -> None:
         while len(self._buffer) < self._index + n:
